@@ -4,6 +4,7 @@ S1  parameter wiring: every parameter (every element of a single array parameter
     size_in_bits of its type, and is bound to exactly that many consecutive fresh wires, numbered from 2
 S2  literal inference keeps types and wires together: constrain_type pushes the expected type into every child that shares the
     node's type (operands, branches, clause bodies, block tail, literal elements) before it overwrites the node's own type
+S5  constant-filled vectors returned by an expression arm are never sized by a Type constructed on the spot (a literal's suffix)
 S4  cross-reference: rows of a join are truncated to their own element width (C13-J6), else the value is wider than its type
 S3  the circuit is built from the wires of the function body: outputs = panic record ++ wires returned by the body (C02-P5 for the
     record), and the input parties handed to the builder are the ones collected in S1
@@ -261,5 +262,40 @@ def rule_s4(ctx):
     return res
 
 
+def rule_s5(ctx):
+    """Vectors of constant wires that an expression arm returns are as wide as the node's own type (or as its lowered children)."""
+    from . import C02
+    res = RuleResult("S5", "constant-filled result vectors of the expression lowering are sized by the node's type or its lowered children")
+    f = C02.fn_of(ctx, C02.EXPR_COMPILE)
+    body = ctx.body(f["id"])
+    ret = set()
+    for blk in body.blocks:
+        for st in blk["stmts"]:
+            if st["k"] == "assign" and st["place"]["l"] == 0 and not st["place"]["p"] and st["rv"]["k"] == "use":
+                ret |= {(r, tuple(p)) for (r, p) in body.trace_operand(st["rv"]["op"])}
+    n = 0
+    for b, t in body.calls():
+        if mir.last_seg(mir.callee(t) or "") != "from_elem" or body.blocks[b]["cleanup"]:
+            continue
+        if (("call", b, mir.callee(t)), ()) not in ret and not (t["dest"]["l"] == 0 and not t["dest"]["p"]):
+            continue
+        n += 1
+        bad = None
+        for (r, p) in body.deep_sources(t["args"][1], 4):
+            if r[0] == "call" and mir.last_seg(r[2] or "") == "size_in_bits_for_defs":
+                recv = body.trace_operand(body.term(r[1])["args"][0], through={})
+                if any(rr[0] == "agg" for (rr, pp) in recv):
+                    bad = body.term(r[1])
+        if bad is not None:
+            res.bad(Finding("S5", f["id"], "result vector sized by a type built on the spot",
+                            "the length of this returned vector is size_in_bits of a Type constructed here (e.g. from a literal's written suffix), not of the node's own type or of its lowered "
+                            "operands: the value can be wider or narrower than the type the checker assigned", t["sp"]))
+        else:
+            res.ok({"site": "line %d" % t["sp"][1], "verdict": "length derives from the node's type / its lowered children"})
+    if n < 3 and not res.findings:
+        raise AnchorMissing("S5: expected constant-filled result vectors in TypedExpr::compile (Match, EnumLiteral, bitwise arms ...), found %d" % n)
+    return res
+
+
 def run(ctx):
-    return ctx.run_rules([rule_s1, rule_s2, rule_s3, rule_s4])
+    return ctx.run_rules([rule_s1, rule_s2, rule_s3, rule_s4, rule_s5])
